@@ -559,10 +559,26 @@ def run(ctx):
     # ---- C10.d signed attributes -------------------------------------------------
     K.check_encode_verify(ctx, f)
     K.check_signed_attrs_decoder(ctx, f)
-    inner = [bd for n, bd in f.bodies.items() if n.startswith(SM + "take_signed_data::{closure")]
+    # the decoder's nested closures — also those of private helpers of the module it hands the work to
+    # (`take_signer_infos(cons, digest_algorithm, &content_type)`): found by reachability, not by name
+    roots, todo = [], [SM + "take_signed_data"]
+    while todo:
+        r_ = todo.pop()
+        if r_ in roots or len(roots) > 12:
+            continue
+        roots.append(r_)
+        for n_ in [r_] + [n for n in f.bodies if n.startswith(r_ + "::{closure")]:
+            bd_ = f.body(n_)
+            for c_ in (bd_.calls() if bd_ is not None else ()):
+                if c_.is_static and (c_.res or "").startswith("ca::sigmsg::") and c_.res in f.bodies and \
+                        (f.fns.get(c_.res) or {}).get("vis") not in ("pub", "public") and "::{closure" not in c_.res:
+                    todo.append(c_.res)
+    inner = [bd for n, bd in f.bodies.items() if any(n.startswith(r_ + "::{closure") for r_ in roots)]
     ctx.floor("R-GRD", "SignedMessage::take_signed_data closures", len(inner), 3)
-    g1 = eq_matcher(r"DigestAlgorithm::take_from\(cons\)", r"\^digest_algorithm")
-    g2 = eq_matcher(r"SignedAttrs::take_from_signed_message\(cons\).*\.2$", r"\^content_type")
+    # compared with a value captured from the enclosing decoder (whatever the capture is called; the operand
+    # types — DigestAlgorithm, Oid — leave nothing else to capture)
+    g1 = eq_matcher(r"DigestAlgorithm::take_from\(cons\)", r"^\^\w+$")
+    g2 = eq_matcher(r"SignedAttrs::take_from_signed_message\(cons\).*\.2$", r"^\^\w+$")
     g3 = eq_matcher(r"^Try::branch\(Constructed::take_sequence\(cons, .*\)\)↓Continue\.0\.0$|content_type", r"PROTOCOL_CONTENT_TYPE")
     for name, g, what in (("digest-alg-agrees", g1, "SignerInfo digest algorithm == SignedData digest algorithm"),
                           ("content-type-agrees", g2, "content type in signed attributes == eContentType"),
